@@ -49,12 +49,17 @@ SeqRange(s) == {s[i] : i \in 1..Len(s)}
 \*       opaque |-> sids whose answers are not judged for correctness any more (add_replacement was used: the caller
 \*                  asserted a replacement the constraints do not imply) but still for isolation,
 \*       last |-> [sid -> set of <<query key, answer>>] since the last operation ON that sid (C14 isolation)]
+\*       twin |-> [sid -> sid or -1]: the solver it was pickled from / to (C18); trail |-> [sid -> sequence of
+\*                <<operation key, answer>>] since that pickle: two twins that received the same operations must have
+\*                given the same answers
 InitState(maxId) == [models |-> [i \in 0..maxId |-> {}], unk |-> {}, added |-> [i \in 0..maxId |-> {}], live |-> {},
-                     opaque |-> {}, last |-> [i \in 0..maxId |-> {}]]
+                     opaque |-> {}, last |-> [i \in 0..maxId |-> {}],
+                     twin |-> [i \in 0..maxId |-> -1], trail |-> [i \in 0..maxId |-> <<>>]]
 
-Mutating == {"add", "simplify", "downsize", "merge", "combine", "split", "branch", "pickle", "new", "add_replacement"}
+Mutating == {"add", "simplify", "downsize", "merge", "combine", "split", "branch", "pickle", "new", "add_replacement",
+             "remove_replacements"}
 \* operations after which the answers of the solver they are called ON may legitimately change
-SelfChanging == {"add", "simplify", "downsize", "add_replacement"}
+SelfChanging == {"add", "simplify", "downsize", "add_replacement", "remove_replacements"}
 Queries == {"satisfiable", "eval", "batch_eval", "min", "max", "solution", "is_true", "is_false"}
 QKey(ev) == <<ev.call, ev.e, ev.es, ev.n, ev.v, ev.signed, ev.extra>>
 \* answers that are functions of the solver's state (eval only when it listed everything it found)
@@ -75,7 +80,7 @@ Effect0(Asg, st, ev) ==
   ELSE
   CASE ev.call = "new" -> [st EXCEPT !.models[ev.new[1]] = Asg, !.live = @ \cup {ev.new[1]}]
     [] ev.call = "add" -> [st EXCEPT !.models[s] = M \cap DenAll(Asg, ev.cs),
-                                      !.added[s] = @ \cup SeqRange(ev.cs)]
+                                      !.added[s] = @ \cup SeqRange(ev.cs) \cup SeqRange(ev.csb)]
     [] ev.call \in {"branch", "pickle"} ->
           [st EXCEPT !.models[ev.new[1]] = M, !.added[ev.new[1]] = st.added[s], !.live = @ \cup {ev.new[1]},
                      !.unk = IF s \in st.unk THEN @ \cup {ev.new[1]} ELSE @]
@@ -104,11 +109,34 @@ Effect0(Asg, st, ev) ==
                                    ELSE st.models[i]],
                      !.live = @ \cup SeqRange(ev.new),
                      !.unk = IF s \in st.unk THEN @ \cup SeqRange(ev.new) ELSE @]
-    [] ev.call = "add_replacement" -> [st EXCEPT !.opaque = @ \cup {s}]
+    [] ev.call \in {"add_replacement", "remove_replacements"} -> [st EXCEPT !.opaque = @ \cup {s}]
     [] OTHER -> st
 
+OpKey(ev) == <<ev.call, ev.e, ev.es, ev.n, ev.v, ev.signed, ev.extra, ev.cs>>
+TrailItem(ev) == <<OpKey(ev), IF ev.call \in Queries /\ Determinate(ev) THEN Answer(ev) ELSE {}>>
+Trailed == Queries \cup SelfChanging
+
+EffectTwin(st, ev) ==
+  LET s == ev.s IN
+  IF ev.call = "pickle" /\ ev.exc = ""
+    THEN [st EXCEPT !.twin = [@ EXCEPT ![s] = ev.new[1], ![ev.new[1]] = s],
+                    !.trail = [@ EXCEPT ![s] = <<>>, ![ev.new[1]] = <<>>]]
+  ELSE IF st.twin[s] >= 0 /\ ev.call \in Trailed
+    THEN [st EXCEPT !.trail[s] = Append(@, TrailItem(ev))]
+  ELSE IF st.twin[s] >= 0 /\ ev.call \notin Trailed
+    THEN [st EXCEPT !.twin = [@ EXCEPT ![s] = -1, ![st.twin[s]] = -1]]     \* branch/merge/...: stop comparing
+  ELSE st
+
+\* C18: the unpickled solver gives the same answers as the original from then on
+FailTwin(st, ev) ==
+  LET s == ev.s  t == st.twin[s]  i == Len(st.trail[s]) + 1 IN
+  IF t >= 0 /\ ev.call \in Queries /\ Determinate(ev) /\ Len(st.trail[t]) >= i
+     /\ (\A j \in 1..(i-1) : st.trail[t][j][1] = st.trail[s][j][1])
+     /\ st.trail[t][i][1] = OpKey(ev) /\ st.trail[t][i][2] # {} /\ st.trail[t][i][2] # Answer(ev)
+  THEN {"pickle-divergence"} ELSE {}
+
 Effect(Asg, st, ev) ==
-  LET st1 == Effect0(Asg, st, ev)
+  LET st1 == EffectTwin(Effect0(Asg, st, ev), ev)
       s == ev.s
       \* ids created from an opaque solver are opaque too
       st2 == IF s \in st.opaque /\ Len(ev.new) > 0 THEN [st1 EXCEPT !.opaque = @ \cup SeqRange(ev.new)] ELSE st1
@@ -243,7 +271,7 @@ FailFault(Asg, st, ev) ==
 Failing(Asg, st, ev) ==
   IF ev.s \in st.unk THEN {}
   ELSE IF ev.fired THEN FailFault(Asg, st, ev)
-  ELSE FailIsolation(st, ev) \cup
+  ELSE FailIsolation(st, ev) \cup FailTwin(st, ev) \cup
        (IF ev.s \in st.opaque THEN (IF ev.exc \in {"", "UnsatError", "NoneAnswer"} THEN {} ELSE {"exc"})
         ELSE IF ev.mode = "approx" THEN FailApprox(Asg, st, ev)
         ELSE FailExact(Asg, st, ev))
